@@ -148,6 +148,9 @@ func main() {
 			}()
 			runControls(c, rep)
 			pd.run(c, rep)
+			if c.Tier == "thorough" {
+				thoroughExtras(c, rep)
+			}
 		}()
 		wall := time.Since(t1).Seconds() + loadS
 		e := rep.Finish(*verif, *tier, seed, wall, known, pd.explanation, pd.notDecided)
